@@ -210,6 +210,51 @@ def syntax_errors(M, model_ptr):
     return out
 
 
+# ---------------------------------------------------------------------------- engine validation
+
+def _norm_lines(b):
+    if isinstance(b, bytes):
+        b = b.decode('utf-8', 'replace')
+    b = re.sub(r'Copyright \d+', 'Copyright Y', b)
+    return sorted(b.split('\n'))
+
+
+def validate_native(t, stats, fmt_out=None, diags=None, gens=None):
+    """translator validation: what the engine computed for this text on the default path (concrete lines, insertion-order
+    maps) is compared with the real code run natively on the same text.  Generated files are compared as multisets of lines
+    (the native run iterates maps in Go's random order) with the year stamp masked.  A disagreement never becomes a
+    violation: it is reported as an engine-validation failure (inconclusive) and counted in the evidence."""
+    try:
+        n = symgo.native_run([t.text], orders=[list(gens)] if gens else [], fmt=fmt_out is not None, visit=True, content=True)[0]
+    except Exception as e:
+        stats.setdefault('validation_failures', []).append('native run failed: %s' % str(e)[:100])
+        return
+    if n.get('fatal'):
+        return
+
+    def note(ok, what):
+        stats['validated'] = stats.get('validated', 0) + 1
+        if not ok:
+            stats.setdefault('validation_failures', []).append(what[:300])
+    if fmt_out is not None and not n.get('format_panic'):
+        kind, val = fmt_out
+        if kind == 'ok':
+            note(val == n.get('format'), 'format: engine %r native %r' % (val[:80] if isinstance(val, str) else val, (n.get('format') or '')[:80]))
+    if diags is not None and not n.get('panic'):
+        want = sorted((int(e[0]), str(e[2])) for e in (n.get('model_errors') or []))
+        note(sorted(diags) == want, 'diagnostics: engine %s native %s' % (sorted(diags)[:3], want[:3]))
+    if gens:
+        gr = (n.get('gens') or [{}])[0]
+        if not gr.get('panic'):
+            for g, files in gens.items():
+                nat = (gr.get('files') or {}).get(g)
+                if nat is None or files is None:
+                    continue
+                ok = set(nat) == set(files) and all(_norm_lines(files[k]) == _norm_lines(nat[k]) for k in files)
+                bad = sorted(set(nat) ^ set(files)) or [k for k in files if _norm_lines(files[k]) != _norm_lines(nat[k])]
+                note(ok, 'generator %s: files differ from the native run: %s' % (g, bad[:3]))
+
+
 # ---------------------------------------------------------------------------- C11
 
 def c11_text(t, dump, tier):
@@ -242,6 +287,8 @@ def c11_text(t, dump, tier):
                 stats['paths'] += 1
                 if kind == 'panic':
                     res.append(BFinding('C11', 'format', t.tag, panic_sym(val), '%s' % val, {'text': text}))
+            if group is None and len(paths) == 1:
+                validate_native(t, stats, fmt_out=paths[0][0])
         except Unsupported as u:
             stats['inconclusive'].append('format: %s' % str(u)[:150])
     # (b) visitor: each identifier token in turn ranges over the identifiers of the text plus a fresh one
@@ -278,7 +325,9 @@ def c11_text(t, dump, tier):
         snap = Snapshot(prog, dump).load()
         try:
             m = M.call(PARSER + '.VerifVisit', [snap.tree])
-            nerr = len(syntax_errors(M, m))
+            errs = syntax_errors(M, m)
+            nerr = len(errs)
+            validate_native(t, stats, diags=[(int(l), to_pystr(x) if isinstance(x, str) else str(x)) for l, x in errs])
         except GoPanic:
             nerr = -1
         if nerr == 0:
@@ -411,6 +460,7 @@ def c13_text(t, dump, tier):
     if dump.get('panic') or dump.get('syntax_errors'):
         return res, stats
     prog = symgo.repo_prog()
+    bases = {}
     for g in GENS:
         outputs = {}
         sites_seen = {}
@@ -465,6 +515,7 @@ def c13_text(t, dump, tier):
             dev = [str(a).replace('\n', ' ') for a in pc if not str(a).replace('\n', ' ').endswith('== 0')]
             if not dev:
                 base = val
+                bases[g] = val
                 continue
             if base is None:
                 continue
@@ -476,6 +527,8 @@ def c13_text(t, dump, tier):
         for cause, (names, d) in causes.items():
             res.append(BFinding('C13', 'gen:' + g, t.tag, 'nondet:' + cause[:160],
                                 'two runs give different output for %s (choice: %s), e.g. text %s' % (names[:3], d, t.tag), {'text': t.text, 'files': names[:5]}))
+    if bases and t.tag != 'p:snake_collide':
+        validate_native(t, stats, gens=bases)
     return res, stats
 
 
@@ -828,7 +881,12 @@ def finish(prop, tier, seed, t0, fam, results, update_known, extra_cov=None):
     paths = 0
     tool_errors = []
     solver = core.Stats()
+    validated = 0
+    vfails = []
     for r in results:
+        validated += r['stats'].get('validated', 0)
+        for x in r['stats'].get('validation_failures', []):
+            vfails.append((r['tag'], x))
         paths += r['stats'].get('paths', 0)
         for x in r['stats'].get('inconclusive', []):
             incon.append((r['tag'], x))
@@ -880,6 +938,11 @@ def finish(prop, tier, seed, t0, fam, results, update_known, extra_cov=None):
         json.dump(fs[0], open(path, 'w'), indent=1, default=str)
         print('VIOLATION property=%s replay=%s' % (prop, path))
         print('  %s :: %s' % (s, (fs[0]['detail'] or '')[:220]))
+    if validated or vfails:
+        print('ENGINE-VALIDATION: %d comparisons of the engine\'s default path with the native code, %d disagreements' % (validated, len(vfails)))
+        for tag, x in vfails[:5]:
+            print('  engine-validation failure (inconclusive, not a violation): %s: %s' % (tag, x[:200]))
+        incon.extend(('validation:' + tag, x) for tag, x in vfails)
     if tool_errors:
         print('TOOL-ERROR: %d cells failed inside the engine (reported as inconclusive): %s' % (len(tool_errors), tool_errors[0][1][-300:]))
     if update_known:
@@ -896,6 +959,8 @@ def finish(prop, tier, seed, t0, fam, results, update_known, extra_cov=None):
         'samples': [{'tag': t.tag, 'text': t.text[:400], 'faults': t.faults} for t in fam[:3]],
         'bounds': 'text family of %d grammar-derived programs (symv/bfamily.py); identifier pool = identifiers of the text + 1 fresh; maps <= 4 entries; call depth 200; 6M instructions per path' % len(fam),
     }
+    cov['engine_validation'] = {'comparisons_with_native_code': validated, 'disagreements': len(vfails), 'samples': [list(x) for x in vfails[:5]],
+                                'what': 'formatter output, visitor diagnostics (line, message) and generated files (as line multisets, year masked) computed by the engine on its default path vs the real code run natively on the same text'}
     if extra_cov:
         cov.update(extra_cov)
     ev = {'property_id': prop, 'tier': tier, 'seed': seed, 'level': 'other', 'coverage': cov,
